@@ -14,6 +14,7 @@
 //   limitations under the License.
 //
 #include "dfs_catalog.h"
+#include "verif_trace.h"
 
 #include <assert.h>         // for assert
 #include <ctype.h>          // for isgraph
@@ -181,6 +182,8 @@ namespace DFS
     for (sector_count_type sec = start; sec <= end; ++sec)
       {
 	assert(sec <= end);
+	VERIF_EVENT("{\"e\":\"body\",\"start\":%lu,\"last\":%lu,\"len\":%lu,\"sec\":%lu}",
+		    (unsigned long)start, (unsigned long)end, (unsigned long)file_length(), (unsigned long)sec);
 	auto buf = media.read_block(sec);
 	if (!buf)
 	  throw BadFileSystem("end of media or unreadable sector in body of file");
